@@ -452,7 +452,7 @@ func init() {
 				"stores built with reflect.StructOf have no accessor methods",
 				"scenarios are sampled; fault positions within a scenario are enumerated exhaustively",
 			},
-			QuickRuns:    160,
+			QuickRuns:    1500,
 			ThoroughRuns: 1 << 30,
 			ThoroughTime: 10 * time.Minute,
 			Exhaustive:   false,
